@@ -298,6 +298,11 @@ class FSA:
         self._in_dict.pop(vertex)
         self._graph_dict.pop(vertex)
 
+        # a deleted vertex is not a start state any more
+        if vertex in self.start_vertices:
+            self.start_vertices = [v for v in self.start_vertices
+                                   if v != vertex]
+
     def vertices(self):
         return self._out_dict.keys()
 
